@@ -292,11 +292,16 @@ def run_ro(spec, ctx):
             sgn = -1 if at['neg'] else 1
             want = sgn * at['mult'] * np.asarray(AT.value(a, u, params), float) + at['off']
             got = expr()
+            first = np.array(got, dtype=float, copy=True)
+            got2 = expr()                      # a query must not change what the next one returns
+            got3 = expr()
         except Exception as ex:
             ctx.count('convex_call_raises:%s:%s' % (a, type(ex).__name__))
             continue
         used_atoms.append(a)
-        q.eq('convex():' + a, got, want, shape=False)
+        q.eq('convex():' + a, first, want, shape=False)
+        q.eq('convex() third call:' + a, got3, want, shape=False)
+        q.eq('convex() value returned earlier:' + a, got, want, shape=False)
     # rules
     for r, y in zip(spec['rules'], ys):
         A = np.array(r['A'], float)
